@@ -76,13 +76,35 @@ def build():
     from vf.verus_run import LostAnchor
     fn = g.item("pub fn write_report(")
     for k, (nth, what) in enumerate((("1st", "redundant"), ("2nd", "missing"))):
-        whole = g.call_arg(fn, ".fold", 1, strip_closure_head=None, occurrence=k)
-        m = re.match(r"\|\s*(\w+)\s*,\s*(\w+)\s*\|", whole.text)
-        if not m:
-            raise LostAnchor("closure of fold number %d in write_report is not `|acc, group| ..`" % k)
-        ub.spec(STEP % dict(nth=nth, what=what, acc=m.group(1), g=m.group(2)))
-        ub.piece(Piece(g.call_arg(fn, ".fold", 1, occurrence=k)))
-        ub.spec("\n")
+        def one(k=k, nth=nth, what=what):
+            # the fold is identified by the variables it initialises (`let (redundant_count, ..) = ...fold(..)`), not by its
+            # position: a fold rewritten as a `for` loop must not shift the other one into this wrapper
+            t = fn.text
+            i = t.find("let (%s_count" % what)
+            if i < 0 or t.find("let (%s_count" % what, i + 1) >= 0:
+                raise LostAnchor("no unique `let (%s_count, ..) =` in write_report" % what)
+            depth, j = 0, i
+            while j < len(t):
+                c = t[j]
+                if c in "([{":
+                    depth += 1
+                elif c in ")]}":
+                    depth -= 1
+                elif c == ";" and depth == 0:
+                    break
+                j += 1
+            if ".fold(" not in t[i:j]:
+                raise LostAnchor("`let (%s_count, ..)` in write_report is not initialised by a fold" % what)
+            k = t[:i].count(".fold(")
+            whole = g.call_arg(fn, ".fold", 1, strip_closure_head=None, occurrence=k)
+            m = re.match(r"\|\s*(\w+)\s*,\s*(\w+)\s*\|", whole.text)
+            if not m:
+                raise LostAnchor("closure of fold number %d in write_report is not `|acc, group| ..`" % k)
+            body = g.call_arg(fn, ".fold", 1, occurrence=k)
+            ub.spec(STEP % dict(nth=nth, what=what, acc=m.group(1), g=m.group(2)))
+            ub.piece(Piece(body))
+            ub.spec("\n")
+        ub.optional("header fold of the %s statistics" % what, one, prefixes=["C14.header."])
     ub.spec("\n\n")
     ub.piece(Piece(r.item("pub struct FileStats {"), drop_attrs=("derive",)))
     ub.spec('''
